@@ -70,3 +70,34 @@ pub use user_access::UserActionsTrait;
 /// Module with recovery algorithms
 ///
 pub(crate) mod recovery;
+
+/// Verification hooks: re-exports of crate-private pure functions so that an external harness can
+/// compare them with a formal model. Compiled only with `--cfg parol_verif`.
+#[cfg(parol_verif)]
+#[allow(missing_docs)]
+pub mod verif_hooks {
+    pub use super::recovery::EditOp;
+    use crate::{TerminalIndex, Trans};
+    use std::collections::BTreeSet;
+
+    pub fn levenshtein_distance(
+        act: &[TerminalIndex],
+        exp: &[TerminalIndex],
+    ) -> (usize, Vec<EditOp>) {
+        super::recovery::Recovery::levenshtein_distance(act, exp)
+    }
+
+    pub fn minimal_token_difference(
+        scanned: &[TerminalIndex],
+        possible: &mut BTreeSet<Vec<TerminalIndex>>,
+    ) -> Option<Vec<TerminalIndex>> {
+        super::recovery::Recovery::minimal_token_difference(scanned, possible)
+    }
+
+    pub fn restore_terminal_strings(
+        transitions: &[Trans],
+        prod0: super::CompiledProductionIndex,
+    ) -> BTreeSet<Vec<TerminalIndex>> {
+        super::recovery::Recovery::restore_terminal_strings(transitions, prod0)
+    }
+}
